@@ -194,6 +194,22 @@ theorem gen_seq_second_is_des (K1 K2 M : List Nat) (f : WhiteDES → WhiteDES) (
   rw [← wb_enc_eq_des K2 M hK]
   simp [wbEnc, h2, bind, Except.bind]
 
+/-! ### used objects: the equality holds between the OBJECTS, at every point of their lives -/
+
+/-- for every 8-byte key the two objects exist — `d = DES(K)` and the generated network `w` — and agree on every operand:
+    `w.enc M = d.enc M` (ciphertext or the same refusal).  In the model both are VALUES: `enc` / `dec` return a result and
+    nothing else, so no earlier call — accepted or refused, `enc` or `dec`, on `d` or on `w` — can change what a later call
+    returns; this is the statement the `wb.hist` lines of the correspondence stream echo on the real objects (ONE `DES(K)`
+    and ONE `WhiteDES` through a history of calls, then compared), where state kept in the object would break it. -/
+theorem wb_enc_eq_des_objects (K : List Nat) (hK : K.length = 8) :
+    ∃ d w, Des.DES.new K = .ok d ∧ mkWhiteDES K = .ok w ∧ ∀ M, w.enc M = d.enc M := by
+  obtain ⟨w, hw, _⟩ := network_total K
+  obtain ⟨b, hb, _⟩ := ofBytes64_ok K
+  have hd : Des.DES.new K = .ok ⟨b⟩ := by simp [Des.DES.new, hK, hb, bind, Except.bind, pure, Except.pure]
+  refine ⟨⟨b⟩, w, hd, hw, fun M => ?_⟩
+  have h := wb_enc_eq_des K M hK
+  simpa [wbEnc, Des.enc, hw, hd, bind, Except.bind] using h
+
 /-! ### non-vacuity: the statements above talk about tables that exist and are not trivial -/
 
 /-- the hypotheses of the ∀-key theorems are just index ranges; instantiated at the key of tests/test_des.py -/
